@@ -24,7 +24,7 @@ import (
 	"verif/internal/model"
 )
 
-const rule = "cases: signed structures built by the independent model and signed with stdlib crypto - RouterInfo (Ed25519, DSA, P-256, P-384 identities), LeaseSet (DSA incl. NULL certificate, P-256, P-384, Ed25519, RedDSA), LeaseSet2 / MetaLeaseSet (library-documented layout) / EncryptedLeaseSet with and without offline block (identity types as above, transient types 0,1,2,7,11), standalone OfflineSignature - (one base in three is instead built and signed by the library's own constructors, so that a verifier that is lenient in the same way as the signer is exposed by the edits) x adversarial derivations: genuine; offline block with a random signature; offline block signed by another key of the identity's type (transplanted from another identity); outer signature random or made by an attacker key, or made by the prescribed key under another store-type prefix (0, 1, 2, 3, 5, 7, 255; for RouterInfo and LeaseSet: with a prefix prepended); field-level tampering of an options mapping after signing (pair with empty key or empty value added, pair appended / dropped / duplicated, order reversed, value changed - in RouterInfo options, address options, LeaseSet2 options, MetaLeaseSet options and entry properties); 1-3 byte-level edits (bit flips, byte sets, 2-byte field +-k, insertions, deletions, truncation, appended data) aimed at header, length, count, flag and key fields or anywhere. Before a tampered or edited encoding is judged, the genuine encoding it derives from is parsed and verified in the same process. Oracle: if the library parses the derived bytes and reports success, then (i) the strict model decodes exactly the consumed bytes, (ii) the outer signature verifies (crypto/ed25519, crypto/ecdsa, crypto/dsa) over prefix || consumed[:-sig] under the identity key, or under the transient key if flag bit 0 is set AND the offline block's signature verifies over expires||type||key under the identity key (blinded key for EncryptedLeaseSet). After a RouterInfo has verified, it is changed through the exported API (AddAddress, or the cost of an address through the pointer RouterAddresses() returns) and verified again: success must then hold over the value's new serialisation. Non-trivial: the derived input is not genuine and still parses; distinct by input bytes."
+const rule = "cases: signed structures built by the independent model and signed with stdlib crypto - RouterInfo (Ed25519, DSA, P-256, P-384 identities), LeaseSet (DSA incl. NULL certificate, P-256, P-384, Ed25519, RedDSA), LeaseSet2 / MetaLeaseSet (library-documented layout) / EncryptedLeaseSet with and without offline block (identity types as above, transient types 0,1,2,7,11), standalone OfflineSignature - (one base in three is instead built and signed by the library's own constructors, so that a verifier that is lenient in the same way as the signer is exposed by the edits) x adversarial derivations: genuine; offline block with a random signature; offline block signed by another key of the identity's type (transplanted from another identity); outer signature random or made by an attacker key, or made by the prescribed key under another store-type prefix (0, 1, 2, 3, 5, 7, 255; for RouterInfo and LeaseSet: with a prefix prepended); field-level tampering after signing: the identity's certificate given more payload (NULL and KEY), an encryption key of an experimental / unassigned / ordinary type inserted, a lease / address / entry duplicated or dropped, and of an options mapping (pair with empty key or empty value added, pair appended / dropped / duplicated, order reversed, value changed - in RouterInfo options, address options, LeaseSet2 options, MetaLeaseSet options and entry properties); 1-3 byte-level edits (bit flips, byte sets, 2-byte field +-k, insertions, deletions, truncation, appended data) aimed at header, length, count, flag and key fields or anywhere. Before a tampered or edited encoding is judged, the genuine encoding it derives from is parsed and verified in the same process. Oracle: if the library parses the derived bytes and reports success, then (i) the strict model decodes exactly the consumed bytes, (ii) the outer signature verifies (crypto/ed25519, crypto/ecdsa, crypto/dsa) over prefix || consumed[:-sig] under the identity key, or under the transient key if flag bit 0 is set AND the offline block's signature verifies over expires||type||key under the identity key (blinded key for EncryptedLeaseSet). After a RouterInfo has verified, it is changed through the exported API (AddAddress, or the cost of an address through the pointer RouterAddresses() returns) and verified again: success must then hold over the value's new serialisation. Non-trivial: the derived input is not genuine and still parses; distinct by input bytes."
 
 func TestMain(m *testing.M) { ev.Main(m, "C05", rule) }
 
@@ -157,26 +157,54 @@ func tamperPairs(p []model.Pair, kind int) ([]model.Pair, bool) {
 
 // tamper applies Case.Tamper to the encoding of a signed structure; the signature
 // stays what it was. ok=false: not applicable (nothing changed, not decodable).
+// tamper applies Case.Tamper to the encoding of a signed structure; the signature
+// stays what it was. Kinds 1..8 change one mapping (tamperPairs); kinds 9.. change the
+// structure around it: 9 the identity's certificate gets two more payload bytes (NULL
+// and KEY certificates alike), 10 an encryption key of an experimental type is inserted,
+// 11 an X25519 key is inserted, 12 the first lease / address / entry is duplicated at the
+// end, 13 the last lease / address / entry is dropped, 14 a key of an unassigned type (9)
+// with an odd length is inserted. ok=false: not applicable.
 func tamper(c Case, b []byte) ([]byte, bool) {
 	which, kind := c.Tamper[0], c.Tamper[1]
 	if kind == 0 {
 		return b, false
 	}
 	fits := func(p []model.Pair) bool { return model.MappingBodyLen(p) <= 65535 }
+	moreCert := func(id *model.Ident) {
+		id.Cert.Payload = append(append([]byte{}, id.Cert.Payload...), 0xaa, byte(which))
+	}
+	insKey := func(keys []model.EncKey, k model.EncKey) []model.EncKey {
+		if len(keys) >= 16 {
+			return nil
+		}
+		i := which % (len(keys) + 1)
+		out := append([]model.EncKey{}, keys[:i]...)
+		out = append(out, k)
+		return append(out, keys[i:]...)
+	}
 	switch c.Kind {
 	case "ri":
 		m, n, err := model.DecodeRouterInfo(b)
 		if err != nil || n != len(b) {
 			return b, false
 		}
-		if which%2 == 1 && len(m.Addrs) > 0 {
+		switch {
+		case kind == 9:
+			moreCert(&m.Ident)
+		case kind == 12 && len(m.Addrs) > 0 && len(m.Addrs) < 255:
+			m.Addrs = append(m.Addrs, m.Addrs[0])
+		case kind == 13 && len(m.Addrs) > 0:
+			m.Addrs = m.Addrs[:len(m.Addrs)-1]
+		case kind >= 9:
+			return b, false
+		case which%2 == 1 && len(m.Addrs) > 0:
 			i := (which / 2) % len(m.Addrs)
 			p, ok := tamperPairs(m.Addrs[i].Options, kind)
 			if !ok || !fits(p) {
 				return b, false
 			}
 			m.Addrs[i].Options = p
-		} else {
+		default:
 			p, ok := tamperPairs(m.Options, kind)
 			if !ok || !fits(p) {
 				return b, false
@@ -184,30 +212,78 @@ func tamper(c Case, b []byte) ([]byte, bool) {
 			m.Options = p
 		}
 		return m.Encode(), true
+	case "ls":
+		m, n, err := model.DecodeLeaseSet(b)
+		if err != nil || n != len(b) {
+			return b, false
+		}
+		switch {
+		case kind == 9:
+			moreCert(&m.Dest)
+		case kind == 12 && len(m.Leases) > 0 && len(m.Leases) < 16:
+			m.Leases = append(m.Leases, m.Leases[0])
+		case kind == 13 && len(m.Leases) > 0:
+			m.Leases = m.Leases[:len(m.Leases)-1]
+		default:
+			return b, false
+		}
+		return m.Encode(), true
 	case "ls2":
 		m, n, err := model.DecodeLS2(b)
 		if err != nil || n != len(b) {
 			return b, false
 		}
-		p, ok := tamperPairs(m.Options, kind)
-		if !ok || !fits(p) {
+		switch {
+		case kind == 9:
+			moreCert(&m.Dest)
+		case kind == 10:
+			if m.Keys = insKey(m.Keys, model.EncKey{Type: 0xff00 + which%255, Len: 4, Data: []byte{1, 2, 3, 4}}); m.Keys == nil {
+				return b, false
+			}
+		case kind == 11:
+			if m.Keys = insKey(m.Keys, model.EncKey{Type: 4, Len: 32, Data: model.Fill(32, 77)}); m.Keys == nil {
+				return b, false
+			}
+		case kind == 14:
+			if m.Keys = insKey(m.Keys, model.EncKey{Type: 9, Len: 7, Data: model.Fill(7, 78)}); m.Keys == nil {
+				return b, false
+			}
+		case kind == 12 && len(m.Leases) > 0 && len(m.Leases) < 16:
+			m.Leases = append(m.Leases, m.Leases[0])
+		case kind == 13 && len(m.Leases) > 0:
+			m.Leases = m.Leases[:len(m.Leases)-1]
+		case kind >= 9:
 			return b, false
+		default:
+			p, ok := tamperPairs(m.Options, kind)
+			if !ok || !fits(p) {
+				return b, false
+			}
+			m.Options = p
 		}
-		m.Options = p
 		return m.Encode(), true
 	case "meta":
 		m, n, err := model.DecodeMetaLS(b)
 		if err != nil || n != len(b) {
 			return b, false
 		}
-		if which%2 == 1 && len(m.Entries) > 0 {
+		switch {
+		case kind == 9:
+			moreCert(&m.Dest)
+		case kind == 12 && len(m.Entries) > 0 && len(m.Entries) < 255:
+			m.Entries = append(m.Entries, m.Entries[0])
+		case kind == 13 && len(m.Entries) > 0:
+			m.Entries = m.Entries[:len(m.Entries)-1]
+		case kind >= 9:
+			return b, false
+		case which%2 == 1 && len(m.Entries) > 0:
 			i := (which / 2) % len(m.Entries)
 			p, ok := tamperPairs(m.Entries[i].Props, kind)
 			if !ok || !fits(p) {
 				return b, false
 			}
 			m.Entries[i].Props = p
-		} else {
+		default:
 			p, ok := tamperPairs(m.Options, kind)
 			if !ok || !fits(p) {
 				return b, false
@@ -370,7 +446,12 @@ func check(c Case, r *ev.Rec) error {
 			m.Sig = attackerSig(m.Dest.SigType, c.LS.Seed, m.SignedPart(), c.SigMode)
 		}
 		orig := orLib(c, r, m.Encode())
-		in = applyEdits(orig, c.Edits)
+		base, tampered := tamper(c, orig)
+		if tampered {
+			genuine = false
+			r.Class(fmt.Sprintf("ls:structure-tampered,kind=%d", c.Tamper[1]))
+		}
+		in = applyEdits(base, c.Edits)
 		warmGenuine(c, r, orig, in)
 		ls, err := lease_set.ReadLeaseSet(in)
 		if err != nil {
@@ -705,8 +786,8 @@ func genCase(t *rapid.T) Case {
 		c.Prefix = rapid.SampledFrom([]int{0, 1, 3, 5, 7, 2, 255}).Draw(t, "prefix")
 	}
 	c.LibSigned = rapid.IntRange(0, 2).Draw(t, "libsigned") == 0
-	if (c.Kind == "ri" || c.Kind == "ls2" || c.Kind == "meta") && rapid.IntRange(0, 3).Draw(t, "tamper") == 0 {
-		c.Tamper = [2]int{rapid.IntRange(0, 7).Draw(t, "twhich"), rapid.IntRange(1, 8).Draw(t, "tkind")}
+	if (c.Kind == "ri" || c.Kind == "ls2" || c.Kind == "meta" || c.Kind == "ls") && rapid.IntRange(0, 3).Draw(t, "tamper") == 0 {
+		c.Tamper = [2]int{rapid.IntRange(0, 40).Draw(t, "twhich"), rapid.IntRange(1, 14).Draw(t, "tkind")}
 		if rapid.Bool().Draw(t, "tamperonly") {
 			c.SigMode = 0
 		}
